@@ -1,4 +1,4 @@
-// C04 — owning arrays have value semantics (copy, move, assign, swap, decay): stateful, model-based
+// C06 — reextent keeps the common part; clear, reshape and assign do what they say: stateful, model-based
 #include "../machine.hpp"
 
 namespace {
@@ -6,16 +6,16 @@ template<class T, int D> void run_td(vp::Input const& in, vp::Ctx& ctx) {
 	vp::obs().reset();
 	ctx.desc << (std::is_same_v<T, int> ? "int" : "Tracked") << " D=" << D;
 	vp::Machine<vp::MCfg<T, std::allocator<T>>, D> M(ctx);
-	M.enabled = vp::kValueOps;
+	M.enabled = vp::kResizeOps;
 	M.run(in);
-	ctx.nontrivial = M.nt && in.nops() >= 2;
+	ctx.nontrivial = M.nt;
 	static char const* const dl[] = {"D0", "D1", "D2", "D3", "D4"};
 	ctx.label(dl[D]); ctx.label(std::is_same_v<T, int> ? "T_int" : "T_Tracked");
 }
 }  // namespace
 
 struct Prop {
-	static constexpr char const* id = "C04";
+	static constexpr char const* id = "C06";
 	static constexpr int H = 2, R = 8, MAXOPS = 10;
 	static void run(vp::Input const& in, vp::Ctx& ctx) {
 		using vp::Tracked;
